@@ -9,7 +9,7 @@ import (
 )
 
 func init() {
-	probeNames["C14"] = []string{"grow", "shrink", "to_unbounded", "from_unbounded", "equal", "below_usage", "prealloc", "wal_mapping_live", "free_region_at_end", "release_regions_tx", "crash_image_in_reopen", "later_plain_open", "commit_ok", "out_of_memory", "overflow_pages_at_size_change", "second_size_change"}
+	probeNames["C14"] = []string{"grow", "shrink", "to_unbounded", "from_unbounded", "equal", "below_usage", "prealloc", "wal_mapping_live", "free_region_at_end", "release_regions_tx", "crash_image_in_reopen", "later_plain_open", "commit_ok", "out_of_memory", "overflow_pages_at_size_change", "second_size_change", "run_truncated_at_deadline"}
 	register(&PropDef{
 		ID: "C14", Level: "exploration", QuickSec: 50, ThoroSec: 900,
 		Rule: "each run = seeded prior txops history (live WAL overwrite mappings, free regions at the file end), then Close and Open with FlagUpdMaxSize for a drawn (old max, new max, prealloc) combination: old in {unbounded, 64KiB..512KiB} x new in {unbounded, smaller, equal, larger, below current usage}, then a further history, then a plain open. Oracles: model check right after the open (root and every live page), lock state idle and Begin/BeginReadonly return (scheduler deadlock detection), growing a bounded file makes exactly newMaxPages-oldMaxPages more pages allocatable (capacity probe), after shrinking the simulated file never extends beyond max(extent before, new limit), the file keeps working, a later plain open reports the new limit; crash images at every I/O boundary inside the size-changing open recover all contents with the old or the new limit. Non-trivial = the open actually changed the limit; distinct = op list + (old,new,prealloc) + schedule hash.",
@@ -79,16 +79,10 @@ func c14Body(e *Env) {
 	if cfg.Overflow && explicit1 == nil && !e.Failed() && rng.Intn(4) > 0 {
 		// fill the file, then commit overwrites: the write-ahead pages, the mapping
 		// and the free list have to go to the overflow area past the limit
-		if n, err := capacityProbe(r, 1<<20); err == nil {
-			fill := []Op{{K: "begin", A: 1}}
-			for n -= rng.Intn(3); n > 0; {
-				k := 1 + rng.Intn(40)
-				if k > n {
-					k = n
-				}
-				fill = append(fill, Op{K: "allocn", A: k})
-				n -= k
-			}
+		{
+			// (allocfill computes the allocatable pages from the allocator snapshot: no
+			// extra transaction that a replay of the recorded operations would lack)
+			fill := []Op{{K: "begin", A: 1}, {K: "allocfill", A: rng.Intn(3)}}
 			fill = append(fill, Op{K: "commit"}, Op{K: "begin", A: 1})
 			for i, m := 0, 1+rng.Intn(6)*rng.Intn(8); i < m; i++ {
 				fill = append(fill, Op{K: []string{"setfull", "setfull", "setpart", "free"}[rng.Intn(4)], A: rng.Intn(1 << 20)})
@@ -120,6 +114,7 @@ func c14Body(e *Env) {
 	var what string
 	var newMaxRounded int
 	firstOld := cfg.MaxSize
+	truncated := false
 	changeSize := func(variant int, pNew *int, prealloc bool) bool {
 	oldMax := r.Cfg.MaxSize
 	ps = cfg.PageSize
@@ -292,10 +287,21 @@ func c14Body(e *Env) {
 	if e.Failed() || c.Crash != nil {
 		return false
 	}
+	if outOfTime() {
+		// the enumeration was cut short by the batch deadline: the rest of this
+		// run would not be reproducible from its seed (a replay enumerates
+		// everything, which shifts the identities of later goroutines)
+		e.Probe("run_truncated_at_deadline")
+		truncated = true
+		return false
+	}
 
 	return true
 	}
 	if !changeSize(cfg.Variant, &c.Cfg.NewMaxSize, cfg.Prealloc) {
+		if truncated {
+			e.Res.Sig = sigOf(r, uint64(ps), uint64(firstOld), 0, 0, fnv64(fmt.Sprint(ops1)))
+		}
 		return
 	}
 	if c.Cfg.Variant2 > 0 && c.Crash == nil {
